@@ -325,6 +325,19 @@ type genOpts struct {
 	noDestroy   bool // never generate RemoveLegacyToken / GER removal (the findings F3/F4 are then unreachable)
 	withV2      bool // generate consistent UpdateL1InfoTreeV2 announcements
 	extremeNets bool
+	// reuse: events of blocks that a reorg dropped. A new fork usually re-includes the dropped transactions, in other
+	// blocks or in another order: one event in three of a kind that has candidates here repeats the content of one of them.
+	reuse []evSpec
+}
+
+func reusable(o genOpts, kind string) []evSpec {
+	var out []evSpec
+	for _, e := range o.reuse {
+		if e.Kind == kind {
+			out = append(out, e)
+		}
+	}
+	return out
 }
 
 func genClaim(t *rapid.T, num, pos uint64) *bridgesync.Claim {
@@ -383,6 +396,9 @@ func genBlock(t *rapid.T, k storeKind, w *world, num uint64, o genOpts) blkSpec 
 						prev = append(prev, *pe.Bridge)
 					}
 				}
+				for _, pe := range reusable(o, "bridge") {
+					prev = append(prev, *pe.Bridge)
+				}
 				d := genBridgeOrRepeat(t, prev)
 				d.BlockNum, d.BlockPos, d.DepositCount, d.BlockTimestamp = num, pos, dc, num*12
 				dc++
@@ -429,6 +445,10 @@ func genBlock(t *rapid.T, k storeKind, w *world, num uint64, o genOpts) blkSpec 
 				var mer, rer common.Hash
 				for tries := 0; ; tries++ {
 					mer, rer = genHash.Draw(t, "mer"), genHash.Draw(t, "rer")
+					if c := reusable(o, "info"); tries == 0 && len(c) > 0 && rapid.IntRange(0, 2).Draw(t, "reincludeDropped") == 0 {
+						old := c[rapid.IntRange(0, len(c)-1).Draw(t, "reincludeWhich")].Info
+						mer, rer = old.MainnetExitRoot, old.RollupExitRoot
+					}
 					if !w.gers[ref.GER(mer, rer)] && !gerInBlock(b.Evs, ref.GER(mer, rer)) {
 						break
 					}
@@ -461,6 +481,14 @@ func genBlock(t *rapid.T, k storeKind, w *world, num uint64, o genOpts) blkSpec 
 				default:
 					er = genHash.Draw(t, "exitRoot") // fresh (never returns to an earlier value)
 				}
+				if c := reusable(o, "verify"); len(c) > 0 && rapid.IntRange(0, 2).Draw(t, "reincludeDropped") == 0 {
+					// the dropped fork's verification of that rollup, with the same exit root (a value the rollup never had on
+					// the surviving chain, so this is still not a return to an earlier value)
+					old := c[rapid.IntRange(0, len(c)-1).Draw(t, "reincludeWhich")].Verify
+					if old.ExitRoot != (common.Hash{}) && !rollupEverHad(w, b.Evs, old.RollupID, old.ExitRoot) {
+						id, er = old.RollupID, old.ExitRoot
+					}
+				}
 				e.Verify = &l1infotreesync.VerifyBatches{BlockPosition: pos, RollupID: id, NumBatch: rapid.Uint64Range(0, 1<<40).Draw(t, "batch"),
 					StateRoot: genHash.Draw(t, "sr"), ExitRoot: er, Aggregator: genAddr.Draw(t, "agg")}
 			case "init":
@@ -487,6 +515,9 @@ func genBlock(t *rapid.T, k storeKind, w *world, num uint64, o genOpts) blkSpec 
 			}
 		default:
 			g := genHash.Draw(t, "ger")
+			if c := reusable(o, "gerins"); len(c) > 0 && rapid.IntRange(0, 2).Draw(t, "reincludeDropped") == 0 {
+				g = c[rapid.IntRange(0, len(c)-1).Draw(t, "reincludeWhich")].GER.GlobalExitRoot
+			}
 			if _, dup := w.gerLive[g]; !dup {
 				idx := w.gerIdx + uint32(rapid.IntRange(0, 3).Draw(t, "idxGap"))
 				b.Evs = append(b.Evs, evSpec{Kind: "gerins", GER: &lastgersync.GEREvent{BlockNum: num, GlobalExitRoot: g, L1InfoTreeIndex: idx}})
@@ -525,6 +556,21 @@ func currentRollupVal(w *world, evs []evSpec, id uint32) common.Hash {
 		}
 	}
 	return v
+}
+
+// rollupEverHad: did rollup id ever hold exit root er on the surviving chain (or through the events drawn for this block)?
+func rollupEverHad(w *world, evs []evSpec, id uint32, er common.Hash) bool {
+	for _, v := range w.rollupHist {
+		if v.Leaves[id] == er {
+			return true
+		}
+	}
+	for _, e := range evs {
+		if e.Verify != nil && e.Verify.RollupID == id && e.Verify.ExitRoot == er {
+			return true
+		}
+	}
+	return false
 }
 
 func sortedHashes(m map[common.Hash]uint32) []common.Hash {
